@@ -28,6 +28,13 @@ class SimFile(object):
                 raise OSError(errno.EIO, _os.strerror(errno.EIO))
         if n is None or n < 0:
             n = len(self.data) - self.pos
+        elif n > 1 and fs.short_read_prefix and self.path.startswith(fs.short_read_prefix) \
+                and len(self.data) - self.pos > 1 and fs.sim.in_task():
+            # a raw / unbuffered stream may return fewer bytes than asked for although more
+            # remain (io.RawIOBase contract): a seeded fraction of the reads does
+            if fs.sim.chance('fs', 0.4, 'shortread'):
+                n = 1 + fs.sim.choose('fs', min(n, len(self.data) - self.pos) - 1 or 1, 'shortn')
+                fs.sim.bump('fs.short_read')
         b = bytes(self.data[self.pos:self.pos + n])
         self.pos += len(b)
         return b
@@ -99,6 +106,7 @@ class SimFS(object):
         self.history = []         # (op, path, size-before) for the append-only directory model
         self.nwrites = 0
         self.fail_write_at = None
+        self.short_read_prefix = None     # paths whose read(n) may come back short
         self.fail_open_at = None
         self.fail_errno = errno.ENOSPC
         self.nopens = 0
